@@ -9,9 +9,10 @@ import (
 )
 
 // E is a typed expression of the query grammar. Kind is the static base kind of the result
-// (int float str bool time null); every expression may additionally be NULL at run time. There is no time literal:
-// a time expression is a column reference or a COALESCE of two time expressions, and only exists where a time column is
-// in scope.
+// (int float str bool time listf lists null); every expression may additionally be NULL at run time. There is no time
+// literal: a time expression is a column reference or a COALESCE of two time expressions, and only exists where a time column
+// is in scope. The same goes for the list kinds (listf = list of Float, lists = list of String); over a list column l the
+// grammar also has len(l) (Int) and l[i] (element kind; NULL when i is out of range).
 type E struct {
 	Op   string `json:"op"`
 	Kind string `json:"kind"`
@@ -95,6 +96,8 @@ func (e E) SQL() string {
 		return "(" + a(0) + op + "(" + strings.Join(parts, ", ") + "))"
 	case "like":
 		return "(" + a(0) + " LIKE " + sqlStr(e.S) + ")"
+	case "index": // list element, index in S
+		return a(0) + "[" + e.S + "]"
 	case "fn": // plain function call, name in S
 		parts := make([]string, len(e.Args))
 		for i := range e.Args {
@@ -134,12 +137,26 @@ func colsOfKind(scope []ScopeCol, kind string) []ScopeCol {
 func Expr(t *rapid.T, scope []ScopeCol, kind string, depth int, o ExprOpts, label string) E {
 	cols := colsOfKind(scope, kind)
 	leaf := func() E {
-		if kind == "time" {
+		if kind == "time" || IsListKind(kind) {
 			if len(cols) == 0 {
-				panic("gen.Expr: a time expression needs a time column in scope")
+				panic("gen.Expr: a " + kind + " expression needs a column of that kind in scope")
 			}
 			c := rapid.SampledFrom(cols).Draw(t, label+"col")
 			return E{Op: "col", Kind: kind, Col: c.Ref}
+		}
+		// over a list column: len(l) as an Int leaf, l[i] as a leaf of the element kind (drawn only when there is such a column)
+		// (a quarter of the leaves; half of them where the scope has no plain column of the kind)
+		listLeafUpTo := 0
+		if len(cols) == 0 {
+			listLeafUpTo = 1
+		}
+		if lc := listColsFor(scope, kind); len(lc) > 0 && rapid.IntRange(0, 3).Draw(t, label+"listleaf") <= listLeafUpTo {
+			c := rapid.SampledFrom(lc).Draw(t, label+"listcol")
+			le := E{Op: "col", Kind: c.Kind, Col: c.Ref}
+			if kind == "int" {
+				return E{Op: "fn", S: "len", Kind: "int", Args: []E{le}}
+			}
+			return E{Op: "index", Kind: kind, S: strconv.Itoa(rapid.IntRange(0, 3).Draw(t, label+"listidx")), Args: []E{le}}
 		}
 		if len(cols) > 0 && rapid.IntRange(0, 3).Draw(t, label+"leafcol") != 0 {
 			c := rapid.SampledFrom(cols).Draw(t, label+"col")
@@ -217,7 +234,7 @@ func Expr(t *rapid.T, scope []ScopeCol, kind string, depth int, o ExprOpts, labe
 		default:
 			return E{Op: "fn", S: "coalesce", Kind: kind, Args: []E{sub(kind, "a"), sub(kind, "b")}}
 		}
-	case "time":
+	case "time", "listf", "lists":
 		if rapid.IntRange(0, 3).Draw(t, label+"op") == 0 {
 			return E{Op: "fn", S: "coalesce", Kind: kind, Args: []E{sub(kind, "a"), sub(kind, "b")}}
 		}
@@ -244,7 +261,7 @@ func Expr(t *rapid.T, scope []ScopeCol, kind string, depth int, o ExprOpts, labe
 			if len(colsOfKind(scope, k)) == 0 {
 				k = kindsInScope(scope)[0]
 			}
-			if k == "bool" || k == "time" {
+			if k == "bool" || k == "time" || IsListKind(k) {
 				return leaf()
 			}
 			n := rapid.IntRange(2, 3).Draw(t, label+"inn")
@@ -269,6 +286,18 @@ func Expr(t *rapid.T, scope []ScopeCol, kind string, depth int, o ExprOpts, labe
 	panic("bad kind " + kind)
 }
 
+// listColsFor: the list columns in scope from which a leaf of the given kind can be made (len(l) for int, l[i] for the
+// element kind).
+func listColsFor(scope []ScopeCol, kind string) []ScopeCol {
+	var out []ScopeCol
+	for _, c := range scope {
+		if IsListKind(c.Kind) && (kind == "int" || kind == ListElemKind(c.Kind)) {
+			out = append(out, c)
+		}
+	}
+	return out
+}
+
 func kindsInScope(scope []ScopeCol) []string {
 	seen := map[string]bool{}
 	var out []string
@@ -280,6 +309,15 @@ func kindsInScope(scope []ScopeCol) []string {
 	}
 	if len(out) == 0 {
 		out = []string{"int"}
+	}
+	// a list column makes Int expressions possible where there is no Int column (JSON tables): len(l)
+	if !seen["int"] && len(out) > 0 && out[0] != "int" {
+		for _, c := range scope {
+			if IsListKind(c.Kind) {
+				out = append(out, "int")
+				break
+			}
+		}
 	}
 	return out
 }
